@@ -460,14 +460,16 @@ def _tooler(fn, captures):
         raise TypeError(f"{fn} cannot be tooled")
 
     with _tooling_lock:
-        if hasattr(fn, "__ptera_stack__"):
-            st = fn.__ptera_stack__
+        st = getattr(fn, "__ptera_stack__", None)
+        if st is not None and st.instrument_count > 0:
+            pass
         elif is_tooled(fn):
-            # Fully instrumented already (@tooled, tooled.inplace): every
-            # variable is available. Installing a variant for these captures
-            # only would take the others away from the overlays that use them.
+            # Fully instrumented already (@tooled, tooled.inplace, possibly
+            # after probes have come and gone): every variable is available.
+            # Installing a variant for these captures only would take the
+            # others away from the overlays that use them.
             return fn
-        else:
+        elif st is None:
             st = fn.__ptera_stack__ = SyncedStackedTransforms(
                 fn, proceed=proceed
             )
@@ -482,9 +484,12 @@ def _tooler(fn, captures):
 
 
 def _untooler(fn, captures):
+    if fn is None:
+        return fn
     with _tooling_lock:
-        if hasattr(fn, "__ptera_stack__"):
-            st = fn.__ptera_stack__
+        st = getattr(fn, "__ptera_stack__", None)
+        # (nothing was installed on a function that was fully tooled)
+        if st is not None and st.instrument_count > 0:
             st.pop(captures)
     return fn
 
